@@ -34,7 +34,7 @@ META = {
                     'by a one-letter marker token; no catcode op inside an argument group; \\gdef writes the bottom frame and '
                     'may be shadowed by a live local definition (lookup yields the innermost live definition)',
                     'no fault space exists for this property (sequential refinement only)'],
-    'probe_names': ['dfs_exhaustive', 'user_environment', 'fresh_name_global_in_nesting', 'catalogue_scope', 'catalogue_dimen_spelling', 'catalogue_raise', 'declaration_frame', 'change_after_declaration_restored', 'char_let_shadowed', 'local_def_restored', 'global_def_survives', 'let_restored', 'catcode_restored', 'if_survives', 'counter_survives',
+    'probe_names': ['dfs_exhaustive', 'package_loaded_inside_group', 'user_environment', 'fresh_name_global_in_nesting', 'catalogue_scope', 'catalogue_dimen_spelling', 'catalogue_raise', 'declaration_frame', 'change_after_declaration_restored', 'char_let_shadowed', 'local_def_restored', 'global_def_survives', 'let_restored', 'catcode_restored', 'if_survives', 'counter_survives',
                     'nested_depth_ge3', 'env_inside_group', 'group_inside_env', 'math_group', 'cell_scope', 'argument_group',
                     'gdef_shadowed', 'catcode_cow_two_frames'],
     'shrink_budget': 400,
@@ -44,6 +44,7 @@ META = {
 NAMES = ['na', 'nb', 'nc']
 LNAMES = ['la', 'lb']
 ALLNAMES = NAMES + LNAMES
+PKGS = [('ifthen', 'ifthenelse'), ('cancel', 'cancel'), ('url', 'url'), ('color', 'textcolor'), ('amsbsy', 'boldsymbol')]   # package -> a macro it defines (globally)
 FRESH = ['qfa', 'qfb']       # names that are NOT defined at the start: existence tests (\ifdefined, `in`, keys()) follow the stack too
 API_KINDS = ['group', 'env']
 TEX_KINDS = ['brace', 'begingroup', 'center', 'quote', 'math', 'cell', 'textbf', 'mbox', 'parenmath', 'displaymath',
@@ -64,7 +65,7 @@ def generate(seed, tier):
                'DEF_GLOBAL': r.choice([0, 1, 2]), 'LET': r.choice([0, 1, 2]), 'CATCODE': r.choice([0, 1, 2]),
                'SETIF': r.choice([0, 1]), 'STEP': r.choice([0, 1]), 'PROBE': 3, 'CELLSEP': r.choice([0, 1]),
                'LETCHAR': r.choice([0, 1, 2]), 'DECL': r.choice([0, 1, 2]), 'VERB': r.choice([0, 1]), 'ROWSEP': r.choice([0, 1]),
-               'SETCOUNTER': r.choice([0, 1])}
+               'SETCOUNTER': r.choice([0, 1]), 'LOADPKG': r.choice([0, 0, 1])}
     kinds = [k for k, w in weights.items() for _ in range(w)]
     while len(ops) < n:
         o = r.choice(kinds)
@@ -83,6 +84,10 @@ def generate(seed, tier):
             depth -= 1
         elif o in ('CELLSEP', 'ROWSEP', 'VERB'):
             ops.append({'op': o})
+        elif o == 'LOADPKG':
+            ops.append({'op': 'LOADPKG', 'pkg': r.randrange(len(PKGS))})
+            if r.random() < 0.5:
+                ops.append({'op': 'PROBE', 'what': 'pkg'})
         elif o == 'SETCOUNTER':
             ops.append({'op': 'STEP', 'how': r.choice(['set', 'add']), 'n': r.randint(0, 9)})
         elif o in ('DEF_LOCAL', 'DEF_GLOBAL'):
@@ -106,7 +111,7 @@ def generate(seed, tier):
         elif o == 'STEP':
             ops.append({'op': 'STEP'})
         else:
-            ops.append({'op': 'PROBE', 'what': r.choice(NAMES + LNAMES + ['cat', 'if', 'counter', 'all', 'fresh'])})
+            ops.append({'op': 'PROBE', 'what': r.choice(NAMES + LNAMES + ['cat', 'if', 'counter', 'all', 'fresh', 'pkg'])})
         if r.random() < 0.3:
             ops.append({'op': 'PROBE', 'what': r.choice(NAMES + ['cat', 'all'])})
     while depth:
@@ -396,6 +401,7 @@ def compile_tex(ops, global_prefix=False):
     in_arg = 0
     in_math = 0
     math_saved = []
+    loaded = set()
 
     def probe(what):
         if what in NAMES:
@@ -413,6 +419,10 @@ def compile_tex(ops, global_prefix=False):
         elif what in LNAMES:
             src.append('x\\%s ' % what)
             exp.append('x' + (m.get_let(what) or m.lookup(what)))
+        elif what == 'pkg':
+            for k, (pk, mac) in enumerate(PKGS):
+                src.append('x\\ifdefined\\%s P\\else Q\\fi ' % mac)
+                exp.append('xP' if k in loaded else 'xQ')
         elif what == 'fresh':
             for n in FRESH:
                 src.append('x\\ifdefined\\%s \\%s\\else U\\fi ' % (n, n))
@@ -424,7 +434,7 @@ def compile_tex(ops, global_prefix=False):
             src.append('x\\arabic{cx} ')
             exp.append('x%d' % m.counter)
         else:
-            for w in NAMES + LNAMES + ['cat', 'if', 'counter', 'fresh']:
+            for w in NAMES + LNAMES + ['cat', 'if', 'counter', 'fresh', 'pkg']:
                 probe(w)
 
     for op in ops:
@@ -464,6 +474,13 @@ def compile_tex(ops, global_prefix=False):
         elif o == 'EMPTY':
             if not in_math:
                 src.append('{}')
+        elif o == 'LOADPKG':
+            # a package loaded anywhere (inside a group, an argument, a cell, math) defines its macros globally
+            k = op['pkg'] % len(PKGS)
+            src.append('\\usepackage{%s}' % PKGS[k][0])
+            loaded.add(k)
+            if len(m.frames) > 2:
+                m.info['package_loaded_inside_group'] = 1
         elif o == 'DEF_LOCAL':
             src.append(('\\edef\\%s{%s%d}' if op.get('form') == 'e' else '\\def\\%s{%s%d}') % (op['name'], op['name'], op['id']))
             m.def_local(op['name'], op['id'])
@@ -707,7 +724,7 @@ def execute(record):
         try:
             if tr == 'api':
                 api_ops = [dict(o, kind={'center': 'center', 'quote': 'quote', 'textbf': 'textbf', 'mbox': 'mbox'}.get(o.get('kind'), 'group'))
-                           if o['op'] == 'OPEN' else o for o in ops if o['op'] not in ('CELLSEP', 'ROWSEP', 'VERB', 'EMPTY')]
+                           if o['op'] == 'OPEN' else o for o in ops if o['op'] not in ('CELLSEP', 'ROWSEP', 'VERB', 'EMPTY', 'LOADPKG')]
                 m, st = run_api(api_ops)
                 states.extend(st)
                 info.update(m.info)
@@ -809,6 +826,8 @@ def _classify(expected, got, n):
         return 'macro'
     if seg[1:2] in ('q', 'U'):
         return 'defined'
+    if seg[1:2] in ('P', 'Q'):
+        return 'package-macro'
     if seg[1:2] in ('L', 'O'):
         return 'catcode'
     if seg[1:2] in ('T', 'F'):
